@@ -282,10 +282,14 @@ class KMatrix(ModelItem):
         initial_concentration :
             The initial concentration.
         """
-        if np.sum(initial_concentration) != 1:
+        # The closed form solution is only valid if solely the first compartment is excited
+        # and each compartment feeds only the next one, with the last one decaying
+        # (no back transfer or ring closing from the last compartment).
+        initial_concentration = np.asarray(initial_concentration)
+        if initial_concentration[0] != 1 or np.any(initial_concentration[1:] != 0):
             return False
         matrix = self.reduced(compartments)
-        return not any(
+        return matrix[-1, -1] != 0 and not any(
             np.nonzero(matrix[:, i])[0].size != 1 or i != 0 and matrix[i, i - 1] == 0
             for i in range(matrix.shape[1])
         )
